@@ -150,7 +150,7 @@ def gen_objlib(rng):
         nm = 'Foo' + names.pop() + rng.choice(['Kind', 'Type'])
         flags = rng.random() < 0.4
         mem = [('FOO_%s_%s' % (uscore(nm[3:]).upper(), w), (1 << k) if flags else k) for k, w in enumerate(rng.sample(['ONE', 'TWO', 'THREE_WORDS', 'X'], rng.choice([2, 3])))]
-        enums.append({'name': nm, 'flags': flags, 'members': mem, 'registered': rng.random() < 0.8})
+        enums.append({'name': nm, 'flags': flags, 'members': mem, 'registered': rng.random() < 0.8, 'helpers': rng.random() < 0.5})
         own.append(nm)
     quarks = []
     for i in range(rng.choice([0, 1, 2])):
@@ -298,6 +298,10 @@ def render_objlib(m, rng=None):
         h.append('typedef enum {\n%s\n} %s;' % (',\n'.join('  %s = %d' % (n, v) for n, v in e['members']), nm))
         if e['registered']:
             h.append('GType %s_get_type (void);' % us)
+            if e.get('helpers'):
+                # functions carrying the symbol prefix of a registered enumeration/flags type become its (static) functions
+                h.append('const gchar *%s_to_string (%s value);' % (us, nm))
+                h.append('gint %s_count_values (void);' % us)
             tag = 'flags' if e['flags'] else 'enum'
             d.append('  <%s name=%s get-type=%s>' % (tag, quoteattr(nm), quoteattr(us + '_get_type')))
             prefix = 'FOO_%s_' % uscore(nm[3:]).upper()
